@@ -311,13 +311,6 @@ impl LspContext {
         Ok(())
     }
 
-    fn join(self) -> MosResult<()> {
-        if let Some(io) = self.connection.unwrap().1 {
-            io.join()?;
-        }
-        Ok(())
-    }
-
     fn find_definitions<'a>(
         &'a self,
         analysis: &'a Analysis,
@@ -415,12 +408,19 @@ impl LspServer {
             .unwrap()
             .initialize(server_capabilities)?;
         self.main_loop(initialization_params)?;
-        Arc::try_unwrap(self.context)
-            .ok()
-            .unwrap()
-            .into_inner()
-            .unwrap()
-            .join()?;
+
+        // The client may have gone away without a shutdown request: tell everyone who is interested
+        self.lock_context().invoke_shutdown_handlers();
+
+        // Other threads (the debug adapter) may still hold on to the context, so it cannot be consumed here. Dropping the
+        // connection is what allows the IO threads to end.
+        let connection = self.lock_context().connection.take();
+        if let Some((connection, io_threads)) = connection {
+            drop(connection);
+            if let Some(io_threads) = io_threads {
+                io_threads.join()?;
+            }
+        }
 
         log::info!("Shutting down MOS language server");
         Ok(())
